@@ -200,9 +200,11 @@ fn block(w: &mut W, v: &V, l: &Layout, path: &str, depth: usize, inline_first: b
                         block(w, x, l, &ptr(path, k), depth + 1, false);
                     }
                     V::Str(sv) if matches!(l.quote, Quote::Literal | Quote::Folded) && !sv.is_empty() && !sv.starts_with(' ') && !sv.ends_with(' ') && !sv.contains('\n') && !sv.chars().any(yaml_special) => {
-                        w.push(if l.quote == Quote::Literal { " |-\n" } else { " >-\n" });
-                        w.push(&" ".repeat((depth + 1) * l.indent));
+                        // a block scalar starts at its indicator
+                        w.push(" ");
                         w.mark(&ptr(path, k));
+                        w.push(if l.quote == Quote::Literal { "|-\n" } else { ">-\n" });
+                        w.push(&" ".repeat((depth + 1) * l.indent));
                         w.push(sv);
                         w.push("\n");
                     }
